@@ -95,6 +95,13 @@ def check_rotation(case, viol):
         return
 
 
+def check_near(case, viol):
+    import search.C19 as C19
+    bad = C19.check_near(case)
+    if bad and bad[0] in ('box-frame', 'box-lost', 'image-window', 'raises'):
+        viol.append({'site': 'C02:RandomCropNearBBox:%s' % bad[0], 'kind': 'near', 'case': case, 'observed': bad[1], 'expected': bad[2]})
+
+
 def run(seed=0, tier='quick', hints=None, broken=False):
     rng = random.Random(seed * 7919 + 2)
     n = 6 if tier == 'quick' else 150
@@ -140,6 +147,16 @@ def run(seed=0, tier='quick', hints=None, broken=False):
             check_lattice('CropAndPad', [c], case, viol)
             evals += 1
             seen.add(('CropAndPad-sweep', repr(c['args'].get('px', c['args'].get('percent')))))
+    # RandomCropNearBBox: the boxes are expressed in the CLAMPED window the image shows, also when the drawn window
+    # passes the far faces of a volume with three different extents (oracle shared with C19)
+    import search.C19 as C19
+    for i in range(8 if tier == 'quick' else 200):
+        case = C19.gen_case(rng, 'near', touch_far=(i % 2 == 0))
+        if i % 2 == 0:
+            case['seed'] = R.EXT_BASE + [0xFFFF, 0xAAAA, 0x5555, rng.getrandbits(16)][(i // 2) % 4]
+        check_near(case, viol)
+        evals += 1
+        seen.add(('RandomCropNearBBox', tuple(case['shape']), i % 2 == 0))
     for case in RC.sweep(rng) * (1 if tier == 'quick' else 6):
         case = dict(case, seed=rng.randint(0, 10 ** 6))
         check_rotation(case, viol)
@@ -156,7 +173,9 @@ def run(seed=0, tier='quick', hints=None, broken=False):
 
 def replay(v):
     viol = []
-    if v.get('kind') == 'rotation':
+    if v.get('kind') == 'near':
+        check_near(v['case'], viol)
+    elif v.get('kind') == 'rotation':
         check_rotation(v['case'], viol)
     elif v.get('kind') == 'resample':
         check_resample(v['name'], v['pipeline'][0], v['case'], viol)
